@@ -490,7 +490,10 @@ def finish(prop, args, seed, t0, results):
                        assumptions, wall, len(violations), known_hits, infra)
     for ln in lines:
         print(ln)
-    print(f"property={prop} tier={args.tier} units={len(results)} obligations={n_obl} discharged={n_dis} "
+    lost = [f"{r['unit']}: {rep['item']}: {w}" for r in results for rep in r.get("report", []) for w in rep.get("rewrites", []) if w.startswith("LOST")]
+    for l in lost:
+        print(f"NOTE lost-hint {l[:300]}")
+    print(f"property={prop} tier={args.tier} units={len(results)} obligations={n_obl} discharged={n_dis} lost_hints={len(lost)} "
           f"bounded={len(bounded)} known_findings={len(known_hits)} violations={len(violations)} wall={wall:.1f}s exit={rc}")
     return rc
 
